@@ -468,6 +468,15 @@ def worker(args):
         b, rid = assign_ids([(window, h)], rid)
         run_cli(rep, cli, b[0][0], b[0][1], decodable, tmpdir)
     rep.extra["decode1090_histories"] = ncli
+    # a batch of random histories under valgrind memcheck
+    from common import memcheck
+    import json as _json
+    if shard < (2 if tier == "quick" else nshards):
+        mlines = []
+        for k, (window, h) in enumerate([random_history(rng, dec, undec) for _ in range(8 if tier == "quick" else 200)]):
+            b, rid = assign_ids([(window, h)], rid)
+            mlines += scenario_of(b[0][0], b[0][1], k)
+        memcheck(rep, "C10", binary, "dedup", ("\n".join(_json.dumps(l) for l in mlines) + "\n").encode())
     # the whole jet1090 executable: 2-3 loopback feeds, receiver tasks + deduplication task + main loop on the real runtime
     import sysjet
     nsys = 1 if tier == "quick" else 6
